@@ -17,8 +17,8 @@ from fractions import Fraction as Fr
 LEVEL = "proof"
 MANIFEST_ENTRY = {
     "category": "proof",
-    "text": "Lean 4 theorems over an executable model of the reliability-sorting unwrapper (edge construction for bounded/periodic grids with masks, union-find with offsets exactly as UnionFindPhase: no path compression, union by rank, the code's sign conventions; final offsets; mean removal; the bright-field embedding). The merge ORDER is an input of the model, so every theorem holds for every order the float reliability sort could produce. Proved for all sizes, masks, edge multigraphs (self-loops/duplicates included) and orders: termination of find (rank strictly increases to the root), the offset-consistency invariant (every stored offset is n(pixel)-n(parent) for any integer field the increments are differences of), Itoh => increments are wrap-count differences (over the reals, threshold pi), hence out - truth is constant on every connected component of the masked edge graph; out - input is in 2*pi*Z plus one constant for every input; smooth unwrapped input is returned up to one constant; same-tree edges are no-ops. The model is tied to the code on every run by exact differential streams (edge multisets, union-find arrays on the real edge order, final offsets, end-to-end fields, bf-overlap embedding) and the property predicate is evaluated on the real outputs with an independent connected-component / wrap-count oracle.",
-    "note": "Trusted: Lean kernel + propext/Classical.choice/Quot.sound; hand model validated by sampled correspondence only; torch indexing/roll/argsort/where semantics; IEEE rounding (inputs are dyadic multiples of pi kept >= 2^-6*pi away from the +-pi thresholds so no float comparison is decided by rounding; the real code keeps offsets in float32, measured deviation from the exact model is reported); float32 storage of edge indices inside torch.stack loses exactness above 2^24 pixels (outside the model); _pixel_reliability only decides the order and is therefore not modelled; the Poisson method is outside the claim; the bf-overlap embedding is tied by correspondence and predicate only (no separate theorem).",
+    "text": "Lean 4 theorems over an executable model of the reliability-sorting unwrapper (edge construction for bounded/periodic grids with masks, union-find with offsets exactly as UnionFindPhase: no path compression, union by rank, the code's sign conventions; final offsets; mean removal; the bright-field embedding). The merge ORDER is an input of the model, so every theorem holds for every order the float reliability sort could produce. Proved for all sizes, masks, edge multigraphs (self-loops/duplicates included) and orders: termination of find (rank strictly increases to the root), the offset-consistency invariant (every stored offset is n(pixel)-n(parent) for any integer field the increments are differences of), Itoh => increments are wrap-count differences (over the reals, threshold pi), hence out - truth is constant on every connected component of the masked edge graph; out - input is in 2*pi*Z plus one constant for every input; smooth unwrapped input is returned up to one constant; same-tree edges are no-ops; the grid-level body of unwrap_bf_overlap_phase_torch (mask test, max-min>pi test, one or two passes) returns the truth up to a constant per connected overlap region in every branch; the model's edge graph is the 4-neighbour graph (bounded and periodic). The model is tied to the code on every run by exact differential streams (edge multisets, union-find arrays on the real edge order, final offsets, end-to-end fields, bf-overlap embedding) and the property predicate is evaluated on the real outputs with an independent connected-component / wrap-count oracle.",
+    "note": "Trusted: Lean kernel + propext/Classical.choice/Quot.sound; hand model validated by sampled correspondence only; torch indexing/roll/argsort/where semantics; IEEE rounding (inputs are dyadic multiples of pi kept >= 2^-6*pi away from the +-pi thresholds so no float comparison is decided by rounding; the real code keeps offsets in float32, measured deviation from the exact model is reported); float32 storage of edge indices inside torch.stack loses exactness above 2^24 pixels (outside the model); _pixel_reliability only decides the order and is therefore not modelled; the Poisson method is outside the claim; the scatter/gather indexing around the bf-overlap body (phase_grid[bf_mask] = ..., return phase_grid[bf_mask]) is tied by correspondence only.",
     "technique": "Lean 4 proof (forest/rank invariant, offset telescoping, Itoh lemma over R) + exact model-vs-implementation correspondence",
 }
 RULE = ("generated phase fields (ramps, quadratics, Gaussian bumps, band-limited random, periodic, raw non-smooth, "
@@ -37,6 +37,10 @@ EXPLANATION = ("Theorems in Props/C17.lean are about Model/Unwrap.lean (run at R
                "threshold half>0, in particular pi). Every run drives the real quantem functions and the model with the same "
                "fields/masks and hands the model the merge order the real sort produced; integer observables are compared exactly.")
 
+DTYPES = {"float16": lambda: __import__("torch").float16, "float32": lambda: __import__("torch").float32,
+          "float64": lambda: __import__("torch").float64}
+# tolerance on assembled outputs per input dtype (float16 input carries its own rounding of the phase, ~1e-3 rad)
+TOL = {"float16": 4e-3, "float32": 5e-4, "float64": 5e-4}
 DEN = 1024                # phases are multiples of pi/1024
 MARGIN = Fr(1, 64)        # distance kept from the +-pi thresholds (units of pi)
 TOL32 = 5e-4
@@ -386,7 +390,7 @@ def field_tensor(case):
     else:
         w = q
         n = [0] * len(q)
-    dt = torch.float32 if case["dtype"] == "float32" else torch.float64
+    dt = DTYPES[case["dtype"]]()
     phi = torch.tensor([float(x) * math.pi for x in w], dtype=torch.float64).reshape(H, W).to(dt)
     mask = None if case["mask"] is None else torch.tensor(case["mask"], dtype=torch.bool).reshape(H, W)
     return q, w, n, phi, mask
@@ -472,7 +476,7 @@ def eval_unwrap_case(ctx, drv, case):
     ctx.dist[f"unwrap:outside:{case['outside']}"] += 1
     ctx.dist[f"unwrap:wrap_around:{wrap}"] += 1
     ctx.dist[f"unwrap:dtype:{case['dtype']}"] += 1
-    ctx.dist[f"unwrap:size:{'<=4' if N <= 4 else '<=64' if N <= 64 else '<=256' if N <= 256 else '<=576'}"] += 1
+    ctx.dist[f"unwrap:size:{'<=4' if N <= 4 else '<=64' if N <= 64 else '<=256' if N <= 256 else '<=576' if N <= 576 else '>2048'}"] += 1
     ctx.dist[f"unwrap:components:{min(ncomp, 5)}{'+' if ncomp >= 5 else ''}"] += 1
     ctx.dist[f"unwrap:really-wraps:{wraps}"] += 1
     if wraps:
@@ -519,10 +523,10 @@ def eval_unwrap_case(ctx, drv, case):
     if mo["incs"] != as_int_list(rec.incs[0]):
         disagree(ctx, "end-to-end", small_case, mo["incs"], as_int_list(rec.incs[0]), note="final offsets")
     model_out = [float(Fr(s)) * math.pi for s in mo["out"]]
-    dist, ok = close(out, model_out, TOL32)
+    dist, ok = close(out, model_out, TOL[case["dtype"]])
     ctx.stat_max(f"end-to-end:max |impl-model|/scale ({case['dtype']})", dist)
     if not ok:
-        disagree(ctx, "end-to-end", small_case, model_out, out, note=f"assembled output, distance/scale {dist:.3g} > {TOL32}")
+        disagree(ctx, "end-to-end", small_case, model_out, out, note=f"assembled output, distance/scale {dist:.3g} > {TOL[case['dtype']]}")
     if wraps:
         ctx.sample({"stream": "end-to-end", "H": H, "W": W, "wrap_around": wrap, "field": case["kind"], "mask": case["mkind"],
                     "mode": case["mode"], "dtype": case["dtype"], "components": ncomp, "wrap_count_range": nrange,
@@ -560,6 +564,19 @@ def eval_edges_case(ctx, drv, case):
     if isinstance(impl, list):
         if len(impl) >= 6:
             ctx.mark(("edges", H, W, wrap, mask is not None))
+
+
+def gen_half_case(rng):
+    """half-precision input on a grid with more than 2048 pixels (pixel indices exceed what float16 represents
+    exactly): the field is a plain smooth one, only the storage type and the size are unusual"""
+    H, W = rng.randint(46, 60), rng.randint(46, 60)
+    wrap = rng.chance(0.3)
+    kind = "periodic" if wrap else rng.choice(["ramp", "quadratic", "gauss", "bandlimited"])
+    pairs = used_pairs(H, W, None, wrap)
+    f = gen_float_field(rng, H, W, kind)
+    qn = quantise_itoh(rng, f, pairs, rng.uniform(0.3, 0.9))
+    return {"stream": "unwrap", "H": H, "W": W, "wrap": wrap, "mask": None, "mode": "wrapped", "dtype": "float16",
+            "qn": qn, "kind": kind, "mkind": "none", "outside": "smooth"}
 
 
 def gen_edges_case(rng):
@@ -826,6 +843,8 @@ def run(ctx):
         n_bf = ctx.n(250, 5000)
         for s in range(n_unw):
             eval_unwrap_case(ctx, drv, gen_unwrap_case(ctx.rng.fork(3_000_000 + s), small=(s % 3 != 0)))
+        for s in range(ctx.n(3, 30)):
+            eval_unwrap_case(ctx, drv, gen_half_case(ctx.rng.fork(5_000_000 + s)))
         for s in range(n_bf):
             eval_bf_case(ctx, drv, gen_bf_case(ctx.rng.fork(4_000_000 + s)))
         for s in range(n_uf):
